@@ -10,6 +10,7 @@ one JSON observation per stdout line); the check starts up to 4 of these in para
 hang or a crash inside one case cannot take the check down, and kills them on a hard time bound.
 """
 import asyncio, json, logging, os, signal, subprocess, sys, time
+import priv
 
 HERE = os.path.dirname(os.path.abspath(__file__))
 SERVER = os.path.join(HERE, "servers", "c17_server.py")
@@ -186,7 +187,7 @@ async def _run_case(case):
             while not client.stopped and time.monotonic() - t0 < CASE_TIMEOUT:
                 await asyncio.sleep(0.002)
         elif stop_at == "dead":
-            while (getattr(getattr(client, "_server", None), "returncode", 0) is None
+            while (getattr(priv.process(client), "returncode", 0) is None
                    and time.monotonic() - t0 < CASE_TIMEOUT):
                 await asyncio.sleep(0)
         elif stop_at == "hook":
@@ -232,8 +233,8 @@ async def _run_case(case):
         obs["rc"] = obs["hook_after_stop"][0][0] if obs["hook_after_stop"] else None
         obs["t_total"] = round(time.monotonic() - t0, 3)
     finally:
-        srv = getattr(client, "_server", None)
-        tasks = list(getattr(client, "_async_tasks", None) or [])
+        srv = priv.process(client)
+        tasks = list(priv.async_tasks(client) or [])
         if srv is not None and srv.returncode is None:
             try:
                 srv.kill()
@@ -264,9 +265,12 @@ def _anchored():
     import inspect
     import pygls.client, pygls.io_
     out = []
-    for fn in (pygls.client.JsonRPCClient.start_io, pygls.client.JsonRPCClient._server_exit,
-               pygls.client.JsonRPCClient.stop, pygls.client.JsonRPCClient._report_server_error,
+    C = pygls.client.JsonRPCClient
+    # (coverage evidence only: an anchored private method that has been renamed is simply not counted)
+    for fn in (C.start_io, getattr(C, "_server_exit", None), C.stop, getattr(C, "_report_server_error", None),
                pygls.io_.run_async):
+        if fn is None:
+            continue
         src, first = inspect.getsourcelines(fn)
         out.append((inspect.getsourcefile(fn), fn.__name__, first, first + len(src) - 1))
     return out
@@ -544,7 +548,9 @@ class C17(core.Property):
                     "set_result/set_exception/cancel state rules; gather re-raises the first task exception; "
                     "complete frames become available to the reader whole",
                     "not modelled (observed only, with a 5 s bound per case): OS process exit and pipe closure, "
-                    "Process.wait(), child watcher, wall-clock promptness"]
+                    "Process.wait(), child watcher, wall-clock promptness",
+                    priv.trusted(["client.process", "client.async_tasks"])]
+    private = ["client.process", "client.async_tasks"]
     assumptions = ["request ids are fresh (uuid4; the model allocates 0,1,2,...)",
                    "the server_exit / report_server_error overrides raise at most Exception subclasses; a suspending "
                    "server_exit hook waits on a timer or on the requests it knows of",
@@ -718,7 +724,10 @@ class C17(core.Property):
         return "1 1 1 %d %d" % (HOOKS[c.get("hook", "ok")], c.get("errhook") == "raise")
 
     def model_input(self, c):
-        evs = events(c)
+        return self._conv_line(c, events(c))
+
+    def _conv_line(self, c, evs):
+        evs = list(evs)
         stop_at = c.get("stop_at") or ("early" if c.get("early_stop") else "after")
         if stop_at == "early":
             evs.append([6])
@@ -727,6 +736,34 @@ class C17(core.Property):
                 f"{ {'hook': 1, 'dead': 2}.get(stop_at, 0) }")
 
     def model_output(self, c, toks):
+        guard, exps, M = self._parse_conv(c, toks)
+        return {"M": M, "S": {"exp": exps, "hooks": 1, "stopped": True, "stop": ["returned"]},
+                "guard": guard, "klass": None}
+
+    def prefix_schedules(self, c):
+        """The driver's two orders are the extremes: when the caller yields, the reader consumes EVERYTHING the
+        server wrote (A) or the exit watcher / stop() runs first (B).  What the server writes after the caller
+        last waited for a reply (late replies, unacceptable replies, its own requests) reaches the client in
+        as many pieces as the OS delivers: the reader may have consumed any PREFIX of those frames - it then
+        blocks - when the watcher (or stop()) runs.  These are schedules of the same model: the conversation
+        with one ReaderRun inserted after the j-th such frame, then the driver's orders.  Computed only for a
+        case whose observation is neither A nor B; S (the expectation per future) is not touched.
+        -> {name: model observation}"""
+        evs = events(c)
+        exit_at = next((i for i, e in enumerate(evs) if e[0] == 3), len(evs))
+        last_wait = max([i for i, e in enumerate(evs[:exit_at]) if e == [4]], default=-1)
+        cuts = [i for i in range(last_wait + 1, exit_at) if evs[i][0] == 2]          # SrvWrite events
+        if not cuts:
+            return {}
+        lines = [self._conv_line(c, evs[:i + 1] + [[4]] + evs[i + 1:]) for i in cuts]
+        out = {}
+        for j, toks in enumerate(core.run_driver("C17", lines)):
+            _, _, M = self._parse_conv(c, toks)
+            for order, m in M.items():
+                out["prefix%d%s" % (j + 1, order)] = m
+        return out
+
+    def _parse_conv(self, c, toks):
         t = _Toks(toks)
         guard = bool(t.int())
         exps = t.keyed(t.expect)
@@ -743,8 +780,7 @@ class C17(core.Property):
                         "post": o2["futs"][nf:], "clean": True, "hrun": o2["hrun"],
                         "hook_done": 1 if o2["stop"] == ["returned"] else 0, "_spec_ok": ok,
                         "_htasks": o2["htasks"]}
-        return {"M": M, "S": {"exp": exps, "hooks": 1, "stopped": True, "stop": ["returned"]},
-                "guard": guard, "klass": None}
+        return guard, exps, M
 
     def satisfies(self, c, impl, S):
         if "crash" in impl:
@@ -767,13 +803,19 @@ class C17(core.Property):
         if "crash" in impl:
             return False
         i = {k: v for k, v in impl.items() if k not in self.NOT_COMPARED}
-        for order in ("A", "B"):
-            m = {k: v for k, v in M[order].items() if not k.startswith("_") and k not in self.NOT_COMPARED}
-            if i == m:
-                self._orders = getattr(self, "_orders", {})
-                self._orders[order] = self._orders.get(order, 0) + 1
-                return True
-        return False
+
+        def among(Ms):
+            for order in sorted(Ms):
+                m = {k: v for k, v in Ms[order].items() if not k.startswith("_") and k not in self.NOT_COMPARED}
+                if i == m:
+                    self._orders = getattr(self, "_orders", {})
+                    key = order if order in ("A", "B") else "prefix"
+                    self._orders[key] = self._orders.get(key, 0) + 1
+                    return True
+            return False
+        # the two extreme schedules first; only then the ones in between (a prefix of the frames the server
+        # wrote last was consumed before the watcher / stop() ran)
+        return among(M) or among(self.prefix_schedules(c))
 
     def nontrivial(self, c):
         return outstanding(c) >= 1 or TAIL_CLASS[c.get("tail", "none")] in (1, 2)
